@@ -116,6 +116,21 @@ def rule_fact(ctx):
                 if isinstance(t2, ast.Call) and isinstance(t2.func, ast.Attribute) and t2.func.attr in ("is_file", "is_dir") and [src(a) for a in t2.args] == [pathp]:
                     op = t2.func.attr
             types[n.value.value] = op
+    if not types:   # the decision may live in a helper whose result is stored as the Type fact
+        for n in walk_no_nested(bm):
+            if isinstance(n, ast.Assign) and isinstance(n.targets[0], ast.Subscript) and isinstance(n.targets[0].slice, ast.Constant) and n.targets[0].slice.value == "Type":
+                v = n.value.value if isinstance(n.value, ast.Await) else n.value
+                if isinstance(v, ast.Call) and isinstance(v.func, ast.Attribute) and v.func.attr in S and [src(a) for a in v.args][-1:] == [pathp]:
+                    h = S[v.func.attr]
+                    hp = [a.arg for a in h.args.args][-1]
+                    for r in walk_no_nested(h):
+                        if isinstance(r, ast.Return) and isinstance(r.value, ast.Constant):
+                            op = None
+                            for t, pol in all_guards(p, r, h):
+                                t2 = t.value if isinstance(t, ast.Await) else t
+                                if pol and isinstance(t2, ast.Call) and isinstance(t2.func, ast.Attribute) and t2.func.attr in ("is_file", "is_dir") and [src(a) for a in t2.args] == [hp]:
+                                    op = t2.func.attr
+                            types[r.value.value] = op
     ok = types.get("file") == "is_file" and types.get("dir") == "is_dir"
     ctx.ob("C07.FACT", bm, f"Type=file iff is_file(path), Type=dir iff is_dir(path) ({types})", ok,
            f"MLSx Type fact is not decided by is_file/is_dir of the listed path: {types}", construct=f"mlsx:type {types}")
@@ -144,16 +159,15 @@ def rule_fact(ctx):
     bl = S.get("build_list_string")
     if bl is None:
         raise AnalysisError("anchor=Server.build_list_string not found")
-    tup = [n for n in walk_no_nested(bl) if isinstance(n, ast.Tuple) and len(n.elts) >= 6]
-    if not tup:
-        raise Inconclusive("C07.FACT: LIST field tuple not found")
-    el = tup[0].elts
+    el = list_fields(p, bl)
+    if el is None:
+        raise Inconclusive("C07.FACT: LIST fields (the sequence joined by ' ') not found")
     lp = [a.arg for a in bl.args.args][-1]
     ctx.ob("C07.FACT", el[0], "LIST mode field is stat.filemode(st_mode)", st_attrs(el[0]) == {"st_mode"} and "filemode" in src(el[0]), "LIST mode field not from st_mode", construct="list:mode")
     ctx.ob("C07.FACT", el[4], f"LIST size field is str(st_size) (from {sorted(st_attrs(el[4]))})", st_attrs(el[4]) == {"st_size"} and src(el[4]).startswith("str("),
            f"LIST size field is taken from {sorted(st_attrs(el[4]))}, not from st_size", construct=f"list:size<-{sorted(st_attrs(el[4]))}")
     ctx.ob("C07.FACT", el[-1], "LIST name is path.name, last field", src(el[-1]) == f"{lp}.name", "LIST name is not the last field / not path.name", construct="list:name")
-    date = expand(p, el[5], bl)
+    date = el[5]
     ok = isinstance(date, ast.Call) and is_self_call(date, {"build_list_mtime"}) and st_attrs(date) == {"st_mtime"} and len(date.args) == 1
     ctx.ob("C07.FACT", el[5], "LIST date is build_list_mtime(st_mtime) with the default `now`", ok, "LIST date not from st_mtime (or `now` overridden)", construct="list:date")
     join = [c for c in walk_no_nested(bl) if isinstance(c, ast.Call) and is_method_call(c, "join")]
@@ -175,6 +189,16 @@ def _is_name_eq_value(js, target):
             and isinstance(vals[2], ast.FormattedValue) and src(vals[2].value) == v and isinstance(vals[3], ast.Constant) and vals[3].value == ";")
 
 
+def list_fields(p, bl):
+    """the field expressions of the LIST line: the tuple/list handed to ' '.join(...), single-definition locals expanded"""
+    for c in walk_no_nested(bl):
+        if isinstance(c, ast.Call) and is_method_call(c, "join") and isinstance(c.func.value, ast.Constant) and c.args:
+            seq = expand(p, c.args[0], bl)
+            if isinstance(seq, (ast.Tuple, ast.List)) and len(seq.elts) >= 6:
+                return [deep_expand(p, x, bl) for x in seq.elts]
+    return None
+
+
 def rule_keys(ctx):
     p = ctx.p
     ctx.rule("C07.KEYS", "lower-cased server fact names cover the keys the client reads; MLSx and LIST parsers produce type/size/modify")
@@ -194,6 +218,7 @@ def rule_keys(ctx):
     ctx.ob("C07.KEYS", pm, "facts are split at ';' and key/value at the first '='", ok, "the MLSx parser does not split facts at ';' and '='", construct="keys:mlsx split")
     pu = p.method("BaseClient", "parse_list_line_unix")
     keys = {n.targets[0].slice.value for n in walk_no_nested(pu) if isinstance(n, ast.Assign) and isinstance(n.targets[0], ast.Subscript) and isinstance(n.targets[0].slice, ast.Constant)}
+    keys |= {k.value for n in walk_no_nested(pu) if isinstance(n, ast.Assign) and isinstance(n.value, ast.Dict) for k in n.value.keys if isinstance(k, ast.Constant)}
     ctx.ob("C07.KEYS", pu, f"the LIST parser produces {sorted(need)} (has {sorted(keys)})", need <= keys, f"the LIST parser lacks keys {sorted(need - keys)}", construct=f"keys:list {sorted(need - keys)}")
     # type mapping of the unix parser
     tm = {}
@@ -202,6 +227,27 @@ def rule_keys(ctx):
             for t, pol in flat_conditions(p, n, pu):
                 if pol and isinstance(t, ast.Compare) and isinstance(t.comparators[0], ast.Constant) and src(t.left).endswith("[0]"):
                     tm[t.comparators[0].value] = n.value.value
+    def _table(x):
+        if isinstance(x, ast.Name):
+            x = unique_def(pu, x.id)
+        return x if isinstance(x, ast.Dict) else None
+    cands = [n.value for n in walk_no_nested(pu) if isinstance(n, ast.Assign) and isinstance(n.targets[0], ast.Subscript) and isinstance(n.targets[0].slice, ast.Constant) and n.targets[0].slice.value == "type"]
+    cands += [v_ for n in walk_no_nested(pu) if isinstance(n, ast.Assign) and isinstance(n.value, ast.Dict) for k_, v_ in zip(n.value.keys, n.value.values) if isinstance(k_, ast.Constant) and k_.value == "type"]
+    for v in cands:   # dict-lookup form: {"-": "file", "d": "dir", ...}.get(s[0], "unknown")
+        if True:
+            if isinstance(v, ast.Call) and isinstance(v.func, ast.Attribute) and v.func.attr == "get" and _table(v.func.value) is not None and v.args and dsrc(p, v.args[0], pu).endswith("[0]"):
+                for k_, v_ in zip(_table(v.func.value).keys, _table(v.func.value).values):
+                    if isinstance(k_, ast.Constant) and isinstance(v_, ast.Constant):
+                        tm[k_.value] = v_.value
+            v = deep_expand(p, v, pu)
+            if isinstance(v, ast.Call) and isinstance(v.func, ast.Attribute) and v.func.attr == "get" and isinstance(v.func.value, ast.Dict) and v.args and src(v.args[0]).endswith("[0]"):
+                for k_, v_ in zip(v.func.value.keys, v.func.value.values):
+                    if isinstance(k_, ast.Constant) and isinstance(v_, ast.Constant):
+                        tm[k_.value] = v_.value
+            if isinstance(v, ast.Subscript) and isinstance(v.value, ast.Dict) and src(v.slice).endswith("[0]"):
+                for k_, v_ in zip(v.value.keys, v.value.values):
+                    if isinstance(k_, ast.Constant) and isinstance(v_, ast.Constant):
+                        tm[k_.value] = v_.value
     ok = tm.get("-") == "file" and tm.get("d") == "dir"
     ctx.ob("C07.KEYS", pu, f"LIST type mapping '-'->file, 'd'->dir ({tm})", ok, f"LIST type mapping is {tm}", construct=f"keys:list type {tm}")
     # size field is the 5th column (after mode, links, owner, group) — order of assignments
@@ -218,7 +264,15 @@ def rule_fmt(ctx):
     S = p.methods("Server")
     bm = S["build_list_mtime"]
     sf = [c for c in walk_no_nested(bm) if isinstance(c, ast.Call) and (dotted(c.func) or "").endswith("strftime")]
-    sfmts = [c.args[0].value for c in sf if c.args and isinstance(c.args[0], ast.Constant)]
+
+    def fmt_consts(e):
+        e = expand(p, e, bm)
+        if isinstance(e, ast.Constant) and isinstance(e.value, str):
+            return [e.value]
+        if isinstance(e, ast.IfExp):
+            return fmt_consts(e.body) + fmt_consts(e.orelse)
+        return []
+    sfmts = [f_ for c in sf if c.args for f_ in fmt_consts(c.args[0])]
     if len(sfmts) < 2:
         raise Inconclusive("C07.FMT: server LIST date formats not found as literals")
     widths = {fmt_width(f) for f in sfmts}
@@ -267,7 +321,8 @@ def rule_half(ctx):
             and not (len(n.ops) == 1 and isinstance(n.ops[0], (ast.Is, ast.IsNot)))]
     if not cmps:
         raise Inconclusive("C07.HALF: window comparison not found in build_list_mtime")
-    c = cmps[0]
+    c = deep_expand(p, cmps[0], bm, stop={mt, "now"})
+    c_orig = cmps[0]
     # normalise to lower < m <= upper
     lower = upper = None
     lower_strict = upper_incl = None
@@ -290,7 +345,7 @@ def rule_half(ctx):
     ctx.ob("C07.HALF", c, "the year-less form is used only for mtime <= now (future timestamps carry their year)", upper is not None and src(upper) == "now",
            f"`{src(c)}` has no upper bound `mtime <= now`: a timestamp in the future is written without a year and read back in the wrong year", construct="half:upper bound")
     # which branch is the year-less one: the branch under the positive test must use the format with %H
-    br = p.parent.get(c)
+    br = p.parent.get(c_orig)
     if isinstance(br, ast.If):
         fm_true = [x.args[0].value for s_ in br.body for x in ast.walk(s_) if isinstance(x, ast.Call) and (dotted(x.func) or "").endswith("strftime") and isinstance(x.args[0], ast.Constant)]
         fm_false = [x.args[0].value for s_ in br.orelse for x in ast.walk(s_) if isinstance(x, ast.Call) and (dotted(x.func) or "").endswith("strftime") and isinstance(x.args[0], ast.Constant)]
